@@ -2486,6 +2486,12 @@ def drop_zero_width_guards(index):
             ok = False
             if isinstance(b, ast.AugAssign) and isinstance(b.op, ast.BitOr) and isinstance(b.target, ast.Name) and vanishes(b.value, xd):
                 ok = True
+            # the same accumulation spelled out: acc = acc | E  /  acc = E | acc
+            if isinstance(b, ast.Assign) and len(b.targets) == 1 and isinstance(b.targets[0], ast.Name) and isinstance(b.value, ast.BinOp) and \
+                    isinstance(b.value.op, ast.BitOr):
+                for acc_, e_ in ((b.value.left, b.value.right), (b.value.right, b.value.left)):
+                    if isinstance(acc_, ast.Name) and acc_.id == b.targets[0].id and vanishes(e_, xd):
+                        ok = True
             if isinstance(b, ast.AugAssign) and isinstance(b.op, ast.Add) and isinstance(b.target, ast.Attribute) and \
                     isinstance(b.target.value, ast.Attribute) and b.target.value.attr == "d" and isinstance(b.value, ast.Call) and \
                     isinstance(b.value.func, ast.Attribute) and b.value.func.attr == "eq" and ast.dump(b.value.func.value) == xd:
